@@ -68,13 +68,32 @@ def generate(outdir, tier):
             n = classes[n]['bases'][0]
         return n, classes[n][key]
     funcs = []
+    state_dependent = []     # (class, which, body): a type test that reads object state instead of being a constant of the class
+
+    enum_names = set(re.findall(r'\b([A-Za-z_]\w*)\b(?=\s*(?:=|,|\}))', enum))
+
+    def class_constant(b):
+        # only `return`, `flag`, PDUType enumerators and the other classes' type tests may appear
+        for ident in re.findall(r'[A-Za-z_]\w*', b):
+            if ident in ('return', 'flag', 'true', 'false') or ident.endswith(('_matches_flag', '_pdu_type')) or ident in enum_names:
+                continue
+            return False
+        return True
     for n in names:
         o, pt = inherited(n, 'pt')
         if pt is None:
             raise cxx.ExtractError('class %s has no pdu_type()' % n)
-        out.append('/* %s::pdu_type (%s) */ static PDUType %s_pdu_type(void) { %s }' % (o, classes[o]['file'], n, body(n if o == n else n, pt) if True else ''))
+        ptb = body(n if o == n else n, pt)
+        if not class_constant(ptb):
+            state_dependent.append((n, 'pdu_type()', re.sub(r'\s+', ' ', pt.strip())))
+            ptb = 'return (PDUType)nondet_int(); /* reads object state: any value */'
+        out.append('/* %s::pdu_type (%s) */ static PDUType %s_pdu_type(void) { %s }' % (o, classes[o]['file'], n, ptb))
         o2, mf = inherited(n, 'mf')
-        out.append('/* %s::matches_flag */ static _Bool %s_matches_flag(PDUType flag) { %s }' % (o2 or 'PDU', n, body(o2, mf) if mf else 'return flag == %s_pdu_type();' % n))
+        mfb = body(o2, mf) if mf else 'return flag == %s_pdu_type();' % n
+        if not class_constant(mfb):
+            state_dependent.append((n, 'matches_flag()', re.sub(r'\s+', ' ', (mf or '').strip())))
+            mfb = 'return nondet_bool(); /* reads object state: any value */'
+        out.append('/* %s::matches_flag */ static _Bool %s_matches_flag(PDUType flag) { %s }' % (o2 or 'PDU', n, mfb))
         funcs.append({'function': '%s::pdu_type / matches_flag / pdu_flag' % n, 'file': classes[n]['file']})
     # PDU::matches_flag default (pdu.h): return flag == pdu_type();
     pdu_mf = cxx.find_function('include/tins/pdu.h', 'PDU::matches_flag')
@@ -121,8 +140,9 @@ rule: pdu->pdu_type\\(\\) ==> k_type(pdu->cls)
 rule: \\(\\(T\\)\\(pdu\\)\\) ==> pdu
 //@ endfunc''')
     nconc = len(names)
+    sd = ''.join('  __CPROVER_assert(0, "the type test of a layer is a constant of its class: %s::%s reads object state (%s)");\n' % (c, w, b.replace('"', "'").replace('\\', '/')) for c, w, b in state_dependent)
     out.append('''void h_c13(void) {
-  int k, t; __CPROVER_assume(k >= 0 && k < NCLS && t >= 0 && t < NCLS && k != CLS_PDU && t != CLS_PDU);
+SD_ASSERTS  int k, t; __CPROVER_assume(k >= 0 && k < NCLS && t >= 0 && t < NCLS && k != CLS_PDU && t != CLS_PDU);
   PDUType ft = flag_of(t);
   _Bool cacher = k > CLS_PDU || t > CLS_PDU;
   if (!cacher) {
@@ -151,7 +171,7 @@ rule: \\(\\(T\\)\\(pdu\\)\\) ==> pdu
 }''')
     p = os.path.join(outdir, 'c13_table.unit')
     with open(p, 'w') as f:
-        f.write('\n'.join(out) + '\n')
+        f.write(('\n'.join(out) + '\n').replace('SD_ASSERTS', sd))
     with open(p + '.json', 'w') as f:
         json.dump({'functions': funcs, 'classes': len(names), 'classes_with_cacher': len(allc) - 1,
                    'pairs_checked': (len(allc) - 1) ** 2, 'class_names': names}, f)
